@@ -268,5 +268,7 @@ def run(ctx):
     rule_adler_running(ctx, cfg, r6)
     r4 = ctx.rule("R09.4", "decoder epilogue: Done in zlib mode only if the trailer equals the Adler-32 of the output; otherwise Adler32Mismatch", floor=4, config=cfg)
     ic.rule_adler_epilogue(ctx, cfg, r4)
+    r7 = ctx.rule("R09.7", "decoder trailer read: four bytes, counted across calls, shifted in most-significant first", floor=4, config=cfg)
+    ic.rule_counted_bytes(ctx, cfg, r7)
     r5 = ctx.rule("R09.5", "validate_zlib_header = RFC 1950 on all header pairs", floor=2, config=cfg)
     ic.rule_zlib_header(ctx, cfg, r5)
